@@ -6,6 +6,12 @@ ROOT = os.path.dirname(os.path.dirname(os.path.abspath(__file__)))
 
 # id -> (level, technique, level text, level note, design ref)
 CHECKS = {
+    "C05": ("exploration", "runtime monitoring: histories of store/compute/load operations checked online against a sequential model (write-once map) with reference links (stdlib digests, hand-built CIDs) over reference block bytes",
+            "Held on the histories observed: every Store/ComputeLink returned the reference link, storage held exactly the reference bytes, every load form returned the stored value and bytes, results handed out earlier did not change later. Sampling of histories and configurations.",
+            "Trusted: internal/ref/link, internal/ref/cbor, stdlib crypto; for cbor/json/dag-json the expected bytes come from the codec's own direct Encode.", "DESIGN.md §2 C05"),
+    "C06": ("fault_enumeration", "runtime monitoring with fault injection at the storage boundary: per stored block, exhaustive bit flips, truncations, read-error offsets, extensions, substitutions, chunkings; writer/encoder failures on the store side with a recording committer",
+            "For each corpus block every fault of the listed classes was injected into each of Load/LoadRaw/LoadPlusRaw/Fill and the outcome compared with an independent digest of the served bytes; exhaustive per block, sampling over blocks.",
+            "Trusted: stdlib digests + internal/ref/link. (0,nil) reads are not part of the fault family (see DESIGN §5).", "DESIGN.md §2 C06"),
     "C01": ("exploration", "runtime monitoring: read-out monitor (every accessor twice, both iterators, every lookup form, wrong-kind probes) over nodes built by randomly drawn legal build programs, compared with the abstract value; DeepEqual/Copy compared with model equality",
             "Held on the executions observed: every generated value built by several legal call sequences into basicnode (Any and kind prototypes) and bindnode Any-map/list bindings read back as exactly that value with no internal disagreement. Sampling with boundary bias, not a proof.",
             "Trusted: internal/obs read-out monitor, internal/model. Typed value spaces are covered by C08/C13.", "DESIGN.md §2 C01"),
